@@ -2,7 +2,7 @@ SPECIFICATION Spec
 CONSTANTS
   Reqs = {1, 2}
   MaxSteps = 6
-  Ops = {"call", "wu", "settings", "resp"}
+  Ops = {"call", "wu", "settings", "resp", "mfs"}
   EmitOneIn = 1
   RespSizes = {0, 1, 3}
   BodySizes = {0, 3, 7}
